@@ -167,11 +167,18 @@ def run_vecmon(case):
         shutil.rmtree(d, ignore_errors=True)
 
 
+class _Runaway(Exception):
+    pass
+
+
 class _Policy:
-    def __init__(self, np, k):
-        self.np, self.k = np, k
+    def __init__(self, np, k, cap):
+        self.np, self.k, self.cap, self.calls = np, k, cap, 0
 
     def predict(self, observation, state=None, episode_start=None, deterministic=True):
+        self.calls += 1
+        if self.calls > self.cap:
+            raise _Runaway()
         return self.np.zeros(self.k, dtype=self.np.int64), None
 
 
@@ -195,9 +202,14 @@ def run_eval(case):
     def cb(loc, glob):
         calls.append((int(loc["i"]), len(loc["episode_rewards"])))
 
+    # every sub-environment completes an episode at least every max_len steps and needs at most n of them
+    cap = case["n"] * max(len(e["steps"]) for sc in case["scripts"] for e in sc["episodes"]) + 10
     with warnings.catch_warnings():
         warnings.simplefilter("ignore")
-        rs, ls = evaluate_policy(_Policy(np, k), env, n_eval_episodes=case["n"], return_episode_rewards=True, warn=False, callback=cb)
+        try:
+            rs, ls = evaluate_policy(_Policy(np, k, cap), env, n_eval_episodes=case["n"], return_episode_rewards=True, warn=False, callback=cb)
+        except _Runaway:
+            return {"runaway": cap, "steps": cap}
     steps = sum(1 for e in raw[0].log if e[0] == "step")
     return {"rs": [float(x) for x in rs], "ls": [int(x) for x in ls], "calls": calls, "steps": steps,
             "r_types_ok": all(isinstance(x, (float, np.floating)) for x in rs)}
@@ -222,6 +234,8 @@ def model_exprs(case, impl):
         ops = coq_list(["UReset" if op == "r" else "UStep" for op in case["ops"]])
         return [f"let scs := {scs} in vm_scripted_run scs (map (fun _ => cursor0) scs) (map (fun _ => v0) scs, []) {ops}"]
     scs = coq_list([coq_script(sc) for sc in case["scripts"]])
+    if "runaway" in impl:
+        return ["true"]
     return [f"evaluate_scripted {coq_nat(impl['steps'] + 3)} {coq_Z(case['mode'])} {coq_Z(case['n'])} {scs}"]
 
 
@@ -361,6 +375,9 @@ def compare_vecmon(case, impl, mv):
 def compare_eval(case, impl, mv):
     probs = []
     k, n = len(case["scripts"]), case["n"]
+    if "runaway" in impl:
+        return [("oracle-evaluate-does-not-stop", f"evaluate_policy still running after {impl['runaway']} vector steps although every sub-environment "
+                 f"completed its share of the {n} episodes long before")]
     rs, ls = impl["rs"], impl["ls"]
     # ---- oracle
     if len(rs) != n or len(ls) != n:
@@ -428,7 +445,7 @@ def run_cases(chk, cases):
         e = model_exprs(c, im)
         spans.append((len(exprs), len(exprs) + len(e)))
         exprs += e
-    vals = common.coq_eval_many(chk.pid, HEADER, exprs, shard=100, procs=8)
+    vals = common.coq_eval_many(chk.pid, HEADER, exprs, shard=150, procs=4)
     results = [COMPARE[c["kind"]](c, im, vals[a:b]) for c, im, (a, b) in zip(cases, impls, spans)]
     return impls, results
 
